@@ -626,6 +626,15 @@ func domainEvalOne(c Case, rp *common.Report) (steps []step, nontrivial bool) {
 
 	check := func(r *rep, want string, b *brute, crSensitive bool) {
 		if r.err != "" {
+			// the output of a conversion must load again (an empty rule set is written as a hint-only file,
+			// which the loader refuses as "empty": no claim there)
+			if r.name != "text" && len(b.rules) > 0 {
+				key := "domainset:" + r.name + ":conversion-output-rejected"
+				if crSensitive {
+					key = f18Key
+				}
+				fail(key, "%s: the converted form does not load: %s", r.name, r.err)
+			}
 			return
 		}
 		if b.badRe {
